@@ -261,8 +261,8 @@ Proof.
   - inversion H; subst. rewrite (pa_m_eps m' W), (vl_m_eps m' W). lia.
   - assert (Hch : owned m x) by (apply (wf_child m W e x Ho); rewrite K; cbn; auto).
     pose proof (node_valid m e x xr W Ho K) as Hxr.
-    destruct (lr_rmie xr rg) as [[|]|] eqn:R; cbn [bind] in H; try discriminate; [|apply Hgen; exact H].
-    destruct (lr_mul xr rg) as [r|] eqn:M; cbn [bind] in H; try discriminate.
+    destruct (lr_rmie xr rg) as [[|]|] eqn:R; try (apply Hgen; exact H).
+    destruct (lr_mul xr rg) as [r|] eqn:M; try (apply Hgen; exact H).
     apply make_rnode in H; [|exact W|exact I|intros c [<-|[]]; exact Hch].
     rewrite pa_node, vl_node, H. unfold loop_pa, loop_vl.
     destruct (mul_flat (phi x) (vl x) xr rg r (vl_pos x) Hxr Hr M) as [E1 E2].
@@ -335,8 +335,8 @@ Proof.
   destruct (is_eps_node e1). { inversion H; subst. lia. }
   destruct (is_eps_node e2). { inversion H; subst. lia. }
   unfold concat_rules in H.
-  destruct (rule5 e1 e2) as [rng|] eqn:R5.
-  { destruct (lr_add_point rng 1) as [r|] eqn:A; cbn [bind] in H; [|discriminate].
+  destruct (rule5g e1 e2) as [r|] eqn:G5.
+  { apply rule5g_some in G5 as (rng & R5 & A).
     unfold rule5 in R5. destruct (loop_of e2) as [[y r0]|] eqn:E; [|discriminate].
     destruct (re_eqb e1 y) eqn:Q; [|discriminate]. inversion R5; subst r0. apply loop_of_some in E.
     destruct (loop_child m e2 y rng W O2 E) as (Hy & Hv & _).
@@ -344,8 +344,8 @@ Proof.
     apply make_rnode in H; [|exact W|exact I|intros c [<-|[]]; exact O1].
     rewrite (pa_node t), (vl_node t), H, (vl_node e2), E. unfold loop_pa, loop_vl.
     destruct (succ_pot (phi e1) (vl e1) rng r Hv1 A) as (S1 & S2 & _). lia. }
-  destruct (rule5 e2 e1) as [rng|] eqn:R6.
-  { destruct (lr_add_point rng 1) as [r|] eqn:A; cbn [bind] in H; [|discriminate].
+  destruct (rule5g e2 e1) as [r|] eqn:G6.
+  { apply rule5g_some in G6 as (rng & R6 & A).
     unfold rule5 in R6. destruct (loop_of e1) as [[y r0]|] eqn:E; [|discriminate].
     destruct (re_eqb e2 y) eqn:Q; [|discriminate]. inversion R6; subst r0. apply loop_of_some in E.
     destruct (loop_child m e1 y rng W O1 E) as (Hy & Hv & _).
@@ -356,8 +356,8 @@ Proof.
     { rewrite phi_nonunion; [|rewrite is_union_node, E; reflexivity]. rewrite pa_node, E. reflexivity. }
     assert (Ev : vl e1 = lvl (vl e2) rng) by (rewrite vl_node, E; reflexivity).
     rewrite Ep, Ev. destruct (succ_pot (phi e2) (vl e2) rng r Hv2 A) as (_ & S2 & S3). lia. }
-  destruct (rule7 e1 e2) as [[[x xr] yr]|] eqn:R7.
-  { destruct (lr_add xr yr) as [r|] eqn:A; cbn [bind] in H; [|discriminate].
+  destruct (rule7g e1 e2) as [[x r]|] eqn:G7.
+  { apply rule7g_some in G7 as (xr & yr & R7 & A).
     unfold rule7 in R7.
     destruct (loop_of e1) as [[x1 r1]|] eqn:E1; [|discriminate].
     destruct (loop_of e2) as [[x2 r2]|] eqn:E2; [|discriminate].
